@@ -137,7 +137,7 @@ def make_table_cases(g, n, cline):
             trow = [(1 << (64 * w)) - 1] * (1 << k)
         else:
             trow = [r.getrandbits(64 * w) for _ in range(1 << k)]
-        L = [r.randrange(0, 1 << 20) if dirty != "zero" else 0 for _ in range(1 << k)]
+        L = [r.randrange(0, 3000) if dirty != "zero" else 0 for _ in range(1 << k)]   # (unary nat on the model side)
         lines = [cline, g.mat_line("M", nr, nc, rows), g.mat_line("T", 1 << k, nc, trow),
                  "call tb_make_table M %d %d %d T %s" % (rr, c, k, " ".join(str(v) for v in L)), "dump T", "dump M"]
         out.append(g.case("tb_make_table", lines, op="tb_make_table", shape=(nr, nc), k=k, kinds=(kind, dirty), r=rr, c=c,
@@ -182,7 +182,7 @@ def catalogue_cases(g, names, n, sz, cline, windows=False, tri_big=None):
     return out
 
 
-def strassen_cases(g, n, cline, consts):
+def strassen_cases(g, n, cline, consts, names=("mul", "addmul", "mul", "addmul", "_addmul")):
     """products that ENTER the Winograd recursion in this build: explicit cutoffs 64 / 128 with all dimensions beyond
     4*cutoff/3 (one or two levels, remainder strips in every direction), the squaring route, windowed operands; a few
     at cutoff 0 = __M4RI_STRASSEN_MUL_CUTOFF of the build when that is reachable"""
@@ -190,7 +190,7 @@ def strassen_cases(g, n, cline, consts):
     dflt = consts["STRASSEN_MUL_CUTOFF"]
     out = []
     for idx in range(n):
-        name = r.choice(["mul", "addmul", "mul", "addmul", "_addmul"])
+        name = r.choice(names)
         # (_mzd_addmul takes the cutoff as it is: only values the wrappers would pass on)
         cut = r.choice([64, 64, 64, 128]) if name == "_addmul" else r.choice([64, 64, 64, 128, 65, 127, 1])
         cn = max(64, cut // 64 * 64)
@@ -202,7 +202,7 @@ def strassen_cases(g, n, cline, consts):
         if cut == 0:
             dims = [lo + r.randint(0, 40) for _ in range(3)]
         m, l, nn = dims
-        same = name != "_addmul" and r.random() < 0.2
+        same = name in ("mul", "addmul") and r.random() < 0.2
         if same:
             l = nn = m
         W = r.choice(_WIN) or {}
@@ -216,7 +216,7 @@ def strassen_cases(g, n, cline, consts):
             lb, db = g.operand("B", l, nn, rb, W.get("B"))
             lines += lb
             dumps += db
-        if name in ("addmul", "_addmul") or r.random() < 0.6:
+        if name in ("addmul", "_addmul", "addmul_mp") or r.random() < 0.6:
             rc, kc = g.rows(m, nn, r.choice(["dense", "ones", "zero"]))
             lc, dc = g.operand("C", m, nn, rc, W.get("C"))
             lines += lc
@@ -325,14 +325,15 @@ class TierB:
             res.violation(path, no_input=True)
 
 
-def _variants(names):
-    return [ops.VARIANTS[n](vlib) for n in names]
+VARIANTS = dict(ops.VARIANTS)
+# OpenMP build (mzd_mul_mp / mzd_addmul_mp exist only there), small caches
+VARIANTS["small-omp"] = lambda vlib: vlib.variant(name="small-omp", openmp=1, **vlib.SMALL)
 
 
 def c01(res, tier, seed):
     quick = tier == "quick"
     for vn in ("small", "host"):
-        tb = TierB(res, "C01", ops.VARIANTS[vn](vlib), seed)
+        tb = TierB(res, "C01", VARIANTS[vn](vlib), seed)
         g = gen.G(seed + 7100 + (vn == "host"))
         small = vn == "small"
         k = 1 if quick else 8
@@ -341,21 +342,40 @@ def c01(res, tier, seed):
         # row-block loop (MUL_BLOCKSIZE = 256 in the small-cache build), 54-column switch, M4RM phases 1..3
         tb.run("m4rm", catalogue_cases(g, ["mul_naive", "addmul_naive", "mul_m4rm", "addmul_m4rm"], (8 if small else 4) * k,
                                        300 if small else 150, tb.cline), ["mul_naive", "addmul_naive", "mul_m4rm", "addmul_m4rm"], 300)
-        tb.run("strassen", strassen_cases(g, (24 if small else 8) * k, tb.cline, tb.consts)
+        tb.run("strassen", strassen_cases(g, (30 if small else 10) * k, tb.cline, tb.consts)
                + catalogue_cases(g, ["mul", "addmul"], (6 if small else 3) * k, 260, tb.cline, windows=True)
                + (die_cases(g, tb.cline) if small else []), ["mul", "addmul"], 300)
+    # mp.c: the four-section front end (sched_mp_* of StrassenGen.v) exists in OpenMP builds only
+    tb = TierB(res, "C01", VARIANTS["small-omp"](vlib), seed)
+    g = gen.G(seed + 7150)
+    tb.run("mp", strassen_cases(g, 16 * (1 if quick else 8), tb.cline, tb.consts, names=("mul_mp", "addmul_mp"))
+           + catalogue_cases(g, ["mul_mp", "addmul_mp"], 4 * (1 if quick else 8), 260, tb.cline), ["mul_mp", "addmul_mp"], 300)
 
 
 def c02(res, tier, seed):
     quick = tier == "quick"
-    for vn in ("small", "host"):
-        tb = TierB(res, "C02", ops.VARIANTS[vn](vlib), seed)
-        g = gen.G(seed + 7200 + (vn == "host"))
-        n = (7 if vn == "small" else 3) * (1 if quick else 8)
-        names = ["echelonize_m4ri", "_echelonize_m4ri", "echelonize", "echelonize_pluq", "top_echelonize_m4ri"]
-        tb.run("echelon", catalogue_cases(g, names, n, 160 if vn == "small" else 130, tb.cline), names, 300)
+    names = ["echelonize_m4ri", "_echelonize_m4ri", "echelonize", "echelonize_pluq", "top_echelonize_m4ri"]
+    for vn in ("small", "host", "stress"):
+        tb = TierB(res, "C02", VARIANTS[vn](vlib), seed)
+        g = gen.G(seed + 7200 + ("small", "host", "stress").index(vn))
+        k = 1 if quick else 8
+        if vn == "stress":
+            # L3 = 4 KiB: the automatic k of the M4RI routes drops (0.75 * 2^k * ncols > L3/2) and the PLUQ-based routes
+            # enter the block recursion of ple.c (PLE cut-off 512 words: 130 x 180 and beyond)
+            tb.run("echelon", catalogue_cases(g, names, 6 * k, 200, tb.cline), names, 300)
+            big = []
+            for _ in range(8 * k):
+                nr, nc = g.rng.choice([(150, 260), (200, 200), (180, 300), (257, 193), (300, 130)])
+                rows, kind = gen.rank_profile_rows2(g, nr, nc) if g.rng.random() < 0.7 else g.rows(nr, nc, "dense")
+                call = g.rng.choice(["echelonize_pluq A %d", "echelonize A %d", "echelonize_pluq A %d"]) % g.rng.getrandbits(1)
+                plain = g.case(call.split()[0], [g.mat_line("A", nr, nc, rows), "call " + call, "dump A"], op=call.split()[0],
+                               shape=(nr, nc), kinds=(kind,), regime="ple-rec")
+                big.append(to_tb(plain, tb.cline))
+            tb.run("pluq-rec", big, ["echelonize_pluq", "echelonize"], 300)
+            continue
+        tb.run("echelon", catalogue_cases(g, names, (10 if vn == "small" else 4) * k, 160 if vn == "small" else 130, tb.cline), names, 300)
         if vn == "small":
-            tb.run("make_table", make_table_cases(g, 15 if quick else 100, tb.cline), ["echelonize_m4ri", "top_echelonize_m4ri"], 200)
+            tb.run("make_table", make_table_cases(g, 15 * k, tb.cline), ["echelonize_m4ri", "top_echelonize_m4ri"], 200)
 
 
 def c04(res, tier, seed):
@@ -363,7 +383,7 @@ def c04(res, tier, seed):
     names = ["trsm_upper_left", "trsm_lower_left", "trsm_upper_right", "trsm_lower_right",
              "_trsm_upper_left", "_trsm_lower_left", "_trsm_upper_right", "_trsm_lower_right"]
     for vn in ("small", "host"):
-        tb = TierB(res, "C04", ops.VARIANTS[vn](vlib), seed)
+        tb = TierB(res, "C04", VARIANTS[vn](vlib), seed)
         g = gen.G(seed + 7400 + (vn == "host"))
         k = 1 if quick else 8
         if vn == "small":
@@ -377,13 +397,13 @@ def c04(res, tier, seed):
 def c05(res, tier, seed):
     quick = tier == "quick"
     for vn in ("small", "host"):
-        tb = TierB(res, "C05", ops.VARIANTS[vn](vlib), seed)
+        tb = TierB(res, "C05", VARIANTS[vn](vlib), seed)
         g = gen.G(seed + 7500 + (vn == "host"))
         k = 1 if quick else 8
         if vn == "small":
             # mzd_trtri_upper recurses for n*n >= 2*L3 = 131072, i.e. n >= 363
-            tb.run("trtri-rec", catalogue_cases(g, ["trtri_upper"], 10 * k, 400, tb.cline, tri_big=(363, 420, 0.9)), ["trtri_upper"], 420)
-            tb.run("inv", catalogue_cases(g, ["inv_m4ri", "trtri_upper"], 8 * k, 140, tb.cline), ["inv_m4ri", "trtri_upper"], 300)
+            tb.run("trtri-rec", catalogue_cases(g, ["trtri_upper"], 16 * k, 400, tb.cline, tri_big=(363, 420, 0.9)), ["trtri_upper"], 420)
+            tb.run("inv", catalogue_cases(g, ["inv_m4ri", "trtri_upper"], 12 * k, 140, tb.cline), ["inv_m4ri", "trtri_upper"], 300)
         else:
             tb.run("inv", catalogue_cases(g, ["inv_m4ri", "trtri_upper"], 5 * k, 200, tb.cline), ["inv_m4ri", "trtri_upper"], 300)
 
@@ -408,10 +428,10 @@ def replay(path):
     txt = open(path).read()
     head = txt.split("--- script", 1)[0]
     m = re.search(r"cfg=([a-z0-9-]+)", head)
-    vn = m.group(1) if m and m.group(1) in ops.VARIANTS else "host"
+    vn = m.group(1) if m and m.group(1) in VARIANTS else "host"
     body = txt.split("--- script\n", 1)[1].split("--- C side", 1)[0].strip().split("\n")
     case = Case(body[0][5:].strip(), [l for l in body[1:] if not l.startswith("end")], {})
-    runner = corr.Runner(ops.VARIANTS[vn](vlib))
+    runner = corr.Runner(VARIANTS[vn](vlib))
     cout, mout = runner.run([case])
     bad, _ = compare([case], cout, mout)
     print("build %s: %s" % (vn, consts_line(build_consts(runner))))
